@@ -10,6 +10,7 @@ import json
 import c05_common as cc
 import c05_gen as g5
 import c06_gen as g6
+import c06_eqprobe
 import c06_kset_probe
 import c06_probe
 from common import Check
@@ -32,6 +33,8 @@ def main(tier, replay=None):
             return c06_probe.replay(replay)
         if json.load(open(replay)).get("kind") == "keyedset-probe":
             return c06_kset_probe.replay(replay)
+        if json.load(open(replay)).get("kind") == "by-value-equal-target":
+            return c06_eqprobe.replay(replay)
         return cc.replay(PID, replay, SEL)
     chk = Check(PID, tier)
     chk.proofs(extra_targets=["Corr/InstCorr.vo", "Corr/SpecCorr.vo"])
@@ -74,4 +77,5 @@ def main(tier, replay=None):
     }
     c06_probe.probe(chk, rng, 300 if quick else 3000, 5 if quick else 7, extra)
     c06_kset_probe.probe(chk, rng, 300 if quick else 3000, 6 if quick else 8, extra)
+    c06_eqprobe.probe(chk, extra)
     return chk.finish(trusted_base=cc.TRUSTED, assumptions=ASSUMPTIONS, extra=extra)
